@@ -10,12 +10,12 @@ VARIABLES phase, lst
 
 Prefix == S("example.com/m@v1.0.0/")
 PathsCore == <<S("a"), S("A"), S("b.go"), S("go.mod"), S("GO.MOD"), S("sub/go.mod"), S("sub/a.go"), S("vendor/p/x.go"), S("vendor/modules.txt"),
-               S("pkg/vendor/vendor.go"), S("pkg/vendor/p/x.go"), S("dir/f"), S("dirx/f"), S("DIR/g"), S("b.go/c"), S("LICENSE"), S("a//b"), S("/abs"), S("con"), <<233>>, <<201>>>>
+               S("pkg/vendor/vendor.go"), S("pkg/vendor/p/x.go"), S("dir/f"), S("dirx/f"), S("DIR/g"), S("testdata/example.com/m@v1.0.0/m.go"), S("b.go/c"), S("LICENSE"), S("a//b"), S("/abs"), S("con"), <<233>>, <<201>>>>
 PathsMore == <<S("Go.Mod"), S("sub/GO.MOD"), S("Sub/x"), S("vendor/x.go"), <<8490>>, S("k"), <<383>>, S("s"), S("aux.txt"), S("a~1"), S("a b"), S("."), S(".."), S("../a"),
                S("a."), S(".hg_archival.txt"), S("a/b"), S("a/"), S("a/./b"), S("a/../b"), S("x*y"), S("sub/sub2/b.go"), S("vendor/modules.txt/x"), <<181>>, <<924>>, <<956>>, <<946>>, <<914>>,
                \* a nested module inside a vendor directory below the root, a reserved name with two extensions,
                \* a tree that repeats the module's own path@version
-               S("pkg/vendor/go.mod"), S("aux.tar.gz"), S("testdata/example.com/m@v1.0.0/m.go")>>
+               S("pkg/vendor/go.mod"), S("aux.tar.gz")>>
 Paths == IF Size = "small" THEN PathsCore ELSE PathsCore \o PathsMore
 File(p, mode, size, lstat, gover) == [path |-> p, mode |-> mode, size |-> size, lstat |-> lstat, gover |-> gover]
 Variants(p) ==
